@@ -22,7 +22,7 @@ for line in open(sweep, errors="replace"):
         caught[cur]["checks"][m.group(1)] = {"exit": int(m.group(2)), "keys": []}
         last = m.group(1)
         continue
-    m = re.match(r"\s+(\S+)\s+@ (\S+)", line)
+    m = re.match(r"\s+(\S.*?)\s+@ (\S+)", line)
     if m and caught[cur]["checks"]:
         caught[cur]["checks"][last]["keys"].append(m.group(1))
     if line.startswith("no check fires"):
